@@ -3266,10 +3266,10 @@ end_daemon(ESL_SQFILE *sqfp, ESL_SQ *sq)
   if (c != '/') ESL_FAIL(eslEFORMAT, ascii->errbuf, "Line %" PRId64 ": did not find // terminator at end of seq record", ascii->linenumber);
 
   /* skip to end of line */
-  while (c != '\n' && c != '\r' && ascii->bpos < ascii->nc) c =  ascii->buf[ascii->bpos++];
+  while (ascii->bpos < ascii->nc && ascii->buf[ascii->bpos] != '\n' && ascii->buf[ascii->bpos] != '\r') ascii->bpos++;
 
-  /* skip past end of line */
-  while ((c == '\n' || c == '\r') && ascii->bpos < ascii->nc) c =  ascii->buf[ascii->bpos++];
+  /* skip past end of line, and stop ON the first character after it (the '>' of the next record), not one past it */
+  while (ascii->bpos < ascii->nc && (ascii->buf[ascii->bpos] == '\n' || ascii->buf[ascii->bpos] == '\r')) ascii->bpos++;
 
   return eslOK;
 }
